@@ -496,3 +496,5 @@ PROPS['C11']['units'].append({'test': 'TestC11Sandbox', 'checks': {'quick': 96, 
 PROPS['C11']['required_classes']['all'] += ['sandbox:unprivileged-without-the-bit-fails', 'sandbox:target-bit=0', 'sandbox:target-bit=1']
 PROPS['C01']['units'].append({'test': 'TestC01Concurrent', 'checks': {'quick': 320, 'thorough': 16000}, 'shards': {'quick': 4, 'thorough': 8}, 'timeout': {'quick': 300, 'thorough': 3000}})
 PROPS['C05']['units'].append({'test': 'TestC05Concurrent', 'checks': {'quick': 320, 'thorough': 16000}, 'shards': {'quick': 4, 'thorough': 8}, 'timeout': {'quick': 300, 'thorough': 3000}})
+PROPS['C01']['required_classes']['all'] += ['groups>=64', 'concurrent-compilations-for-different-architectures']
+PROPS['C05']['required_classes']['all'] += ['concurrent-compilations-for-different-architectures', 'value-edited-and-compiled-again-while-the-program-is-held']
